@@ -8,7 +8,10 @@ TRUSTED = ["Lean 4.33 kernel; axioms: propext, Quot.sound, Classical.choice at m
            "lexer/parser of llir/ll is trusted to deliver exactly these tokens (validated by byte-exact text comparison on every run)",
            "M-Core-2 (LlirModel/Core2.lean + TyParse.lean): struct type definitions with bodies and globals of any type with nested aggregate constants; the text of types and "
            "constants is read by byte-level readers proved to invert the printers (stand-ins for the grammar of llir/ll, compared with the real parser on printed and mutated "
-           "texts); line splitting and the identifier tokens are trusted as in M-Core"] + modprops.MODEL_TRUST + [
+           "texts); line splitting and the identifier tokens are trusted as in M-Core",
+           "M-Core-3 (LlirModel/Core3.lean): function definitions; every line (header, label, instruction, terminator) is read by byte-level readers proved to invert the printers "
+           "(generic over a table of 30 rows); the translation models asm/local.go (AssignIDs through the numbering model, duplicate / undefined / label-kind checks, operand retyping); "
+           "splitting the text into lines is trusted; compared with the real parser on printed functions and 13 kinds of single-point mutants (acceptance AND re-printed text)"] + modprops.MODEL_TRUST + [
            "PARTIAL: outside M-Core and the leaf categories (C08, C09, C11, C16, C17, C18, C20, C04/C05) the grammar is tied by correspondence only: byte-exact fixpoint of "
            "generated canonical modules, graph closure, stability of the corpus modules; LLVM's own reading of the text is not consulted in the quick tier"]
 ASSUMPTIONS = ["names satisfy the C11 guards (non-empty, no NUL, not digit-led junk, not readable as an ID)"]
@@ -38,6 +41,15 @@ def gen(tier, rng, harness=None, driver=None):
         ts, gs = core2gen.gen_core2(rng)
         lines += ["core2.print %s %s" % (ts, gs), "core2.reparse %s %s" % (ts, gs), "!core2.rt %s %s" % (ts, gs)]
     lines += readconst_stream(rng, driver, n)
+    # M-Core-3: function definitions (parameters, named / numbered blocks, 30 instruction and terminator rows over locals and constants): model text
+    # == implementation text byte for byte for the constructed function and for the re-parsed one; the proved line readers + translation against
+    # the real parser on printed texts and on single-point mutants (undefined / re-quoted uses, duplicated definitions, wrong IDs, nameless
+    # results and blocks, changed operand types, deleted / doubled terminators, swapped lines, deleted labels, extra operands, dropped commas)
+    from . import core3gen
+    for _ in range(n):
+        a = " ".join(core3gen.gen_func(rng))
+        lines += ["core3.print " + a, "core3.reparse " + a, "!core3.rt " + a]
+    lines += core3_parse_stream(rng, driver, n // 2)
     for t in modprops.corpus_texts():
         lines.append("!mod.stable - %s" % hx(t))
         lines.append("!mod.closure - %s" % hx(t))
@@ -49,6 +61,21 @@ def gen(tier, rng, harness=None, driver=None):
         lines.append("!mod.fix %s %s" % (hx(sk), hx(text)))
         t2, _ = modgen.render(m, rng, shuffle=True)
         lines.append("!mod.canon %s %s %s" % (hx(sk), hx(t2), hx(text)))
+    return lines
+
+
+def core3_parse_stream(rng, driver, n):
+    from . import core3gen
+    fs = [core3gen.gen_func(rng) for _ in range(n)]
+    outs = C.run_lines([driver], ["core3.print " + " ".join(f) for f in fs], shards=8)
+    lines = []
+    for o in outs:
+        if not o or o in ("-", "unknown-op"):
+            continue
+        t = bytes.fromhex(o)
+        lines.append("core3.parse " + t.hex())
+        for kind, mt in core3gen.mutants(rng, t):
+            lines.append("core3.parse " + mt.hex())
     return lines
 
 
@@ -97,6 +124,9 @@ def extra(res, findings, tier, rng, harness, driver):
     ref = llvm_reference(res, findings, tier, rng, harness)
     return {**ref, "constructs_covered_by_generator": CONSTRUCTS,
             "mcore_constructs": ["opaque type definitions", "integer global variable definitions"],
+            "mcore3_constructs": ["function definitions with any number of parameters and blocks (named, numbered or nameless)", "add sub mul udiv sdiv urem srem shl lshr ashr and or xor",
+                                  "icmp (10 predicates)", "load", "store", "select", "ret (void / value)", "br", "conditional br", "unreachable",
+                                  "operands: locals (names, IDs, forward references) and Core2 constants of any nesting"],
             "mcore2_constructs": ["identified struct type definitions (opaque, literal body, packed body, recursive through pointers)", "global / constant variables of any type",
                                   "integer constants of any width incl. i1", "zeroinitializer / null / undef", "nested struct / packed struct / array / vector constants"]}
 
@@ -107,7 +137,7 @@ def nontrivial(ln, model_out):
 
 def search(ln, a, b, harness, driver):
     p = ln.split()
-    if p[0] in ("core2.readconst", "core2.print", "core2.reparse"):
+    if p[0] in ("core2.readconst", "core2.print", "core2.reparse", "core3.parse", "core3.print", "core3.reparse"):
         return None
     c = "!core.rt " + " ".join(p[1:3])
     x = C.run_lines([harness, "run"], [c])[0]
